@@ -155,7 +155,7 @@ struct Compiled {
     std::string opf_err;
 };
 typedef std::map<std::pair<int, std::string>, Compiled> PcapCache;
-PcapCache& pcap_cache() { static PcapCache* c = new PcapCache; return *c; }  // never destroyed: stays reachable for LeakSanitizer
+PcapCache& pcap_cache() { static thread_local PcapCache* c = new PcapCache; return *c; }  // per thread (C18 runs this TU on several threads); never destroyed: stays reachable for LeakSanitizer
 
 void pcap_cache_clear() {
     PcapCache& c = pcap_cache();
